@@ -6,6 +6,7 @@ import Marwood.Lemmas.PolicyCount
 import Marwood.Lemmas.PolicyRun
 import Marwood.Proofs.C07
 import Marwood.Proofs.C03
+import Marwood.Lemmas.MachineGarbage
 /-!
 # C12 — memory is bounded by live data: garbage of every kind is reclaimed
 
@@ -28,6 +29,12 @@ kind discipline).
 * T12.1 on the post-collection heap alone: `allocated_after_gc_iff_live_after`.
 * finding (not a theorem about the collector, a fact about the root set):
          `undefined_global_binding_retains_symbol`.
+* T12.1 **about executions of the concrete machine** (`machine ext force` of Vm/ConcreteHeap.lean):
+         `no_floating_garbage_of_goodI`, `no_floating_garbage_machine`, `forced_gc_no_floating_garbage_machine`
+         — `plainHeap`, `plainRoots` and the size facts are consequences of the invariant `GoodI` propagated from the
+         initial state; the decoding discipline of code objects (`CodePlain`) is an invariant as well
+         (`codePlain_reaches`: no core instruction and no collection creates or changes a code object), assumed of the
+         initial state and of the unmodelled operations (`ExtCodePlain`).
 -/
 namespace Marwood.Proofs.C12
 open Marwood Marwood.Heap Marwood.Spec
@@ -432,5 +439,94 @@ theorem pre_h4 : Pre h4 := by
 /-- non-vacuity of `HRun`/`heap_run_capacity_bounded`: a fresh 4-cell heap, one allocation -/
 example : HRun true h4 [.alloc] h4a ∧ (proj h4a).used = 1 ∧ HeapPolicy.Paced 1 0 0 [HeapPolicy.Op.alloc] :=
   ⟨.alloc pre_h4 (p := 0) rfl (.done _), by decide, by decide⟩
+
+/-! ## T12.1 as a theorem about executions of the concrete machine
+
+The hypotheses `plainHeap` / `plainRoots` / sizes / no-marks / shape of `allocated_after_gc_iff_live` were
+"checked per snapshot". For a state of the concrete machine they follow from the invariant `GoodI`
+(Lemmas/MachineGarbage.lean), and `GoodI` holds in every reachable state (`goodI_reaches`). The one clause
+`GoodI` does not carry is `CodePlain`: in a code object an operand cell is never an opcode. It is an invariant of
+its own (`codePlain_reaches`: `run_one` and `run_gc` never create or change a code object — proved through the
+generic `step_rel`), so it is assumed of the initial state and, as the law `ExtCodePlain`, of the unmodelled
+operations (generic builtins, `eval`'s compiler, VPUSH). -/
+
+section machine
+open Marwood.Vm.Concrete Marwood.Lemmas.Sim Marwood.Lemmas.Good Marwood.Lemmas.MachineGarbage
+open Marwood.Vm (St)
+
+/-- **T12.1 on a machine state satisfying the invariant.** If `run_gc` collects in state `s`, then in the
+state it returns a cell is allocated iff it was reachable from the machine's roots (`rootsOf s`: global
+bindings, stack up to `sp`, `acc`, running code, current environment) through semantic references — and iff it
+is so reachable in the *returned* heap: no floating garbage is left. -/
+theorem no_floating_garbage_of_goodI (force : Bool) {s : St CHeap} (g : GoodI s) (cp : CodePlain s.heap)
+    (sm : Small (cgc force s).heap) {h' : Heap}
+    (hrun : Heap.runGc true force (toHeap s.heap) (rootsOf s) = .ok (.collected h')) (x : Nat) :
+    ((toHeap (cgc force s).heap).NonFree x ↔ Live (toHeap s.heap) (rootsOf s) x) ∧
+    ((toHeap (cgc force s).heap).NonFree x ↔ Live (toHeap (cgc force s).heap) (rootsOf (cgc force s)) x) := by
+  have wf := g.hg.wf
+  have hph := plainHeap_toHeap g.hg.plain cp
+  have hpr := plainRoots_rootsOf (s := s) g.hg.plain
+  have e : cgc force s = { s with heap := liftGc s.heap h' } := by simp only [cgc, hrun]
+  have hb' : h'.cells.size ≤ 2 ^ 63 := by
+    rw [e] at sm
+    have : 2 * h'.cells.size ≤ 2 ^ 63 := by simpa [Small, liftGc] using sm
+    omega
+  have wf' := runGc_wf true force _ _ h' wf g.roots hb' hrun
+  have gs := runGc_spec true force _ _ h' wf.sizes wf.no_used wf.shape hrun
+  have L := lifted wf wf' gs
+  have eh : toHeap (cgc force s).heap = h' := by rw [e]; exact L.erase
+  have er : rootsOf (cgc force s) = rootsOf s := by rw [e]; rfl
+  rw [eh, er]
+  exact ⟨allocated_after_gc_iff_live force _ _ h' wf.sizes wf.no_used wf.shape hph hpr hrun x,
+    allocated_after_gc_iff_live_after force _ _ h' wf g.roots hb' hph hpr hrun x⟩
+
+/-- **T12.1 for every reachable state of the concrete machine.** Start in a state satisfying the invariant;
+after any number of instructions and collections at any boundaries, whenever `run_gc` collects, the allocated
+set of the state it returns equals the set of cells reachable from the machine roots through semantic references. -/
+theorem no_floating_garbage_machine {ext : ExtOps} (force : Bool) (el : ExtLaws ext) (eg : ExtGood ext)
+    {s0 : St CHeap} (g0 : GoodI s0) (sb : SizeBounded (machine ext force) s0)
+    (sdl : StackDiscAlong (machine ext force) s0) (ecp : ExtCodePlain ext) (cp0 : CodePlain s0.heap)
+    {s : St CHeap} (hr : Reaches (machine ext force) s0 s) {h' : Heap}
+    (hrun : Heap.runGc true force (toHeap s.heap) (rootsOf s) = .ok (.collected h')) (x : Nat) :
+    ((toHeap ((machine ext force).gc s).heap).NonFree x ↔ Live (toHeap s.heap) (rootsOf s) x) ∧
+    ((toHeap ((machine ext force).gc s).heap).NonFree x ↔
+      Live (toHeap ((machine ext force).gc s).heap) (rootsOf ((machine ext force).gc s)) x) :=
+  no_floating_garbage_of_goodI force (goodI_reaches force el eg g0 sb sdl s hr)
+    (codePlain_reaches force ecp cp0 s hr) (sb _ (.gc hr)) hrun x
+
+/-- … and with the forcing hook (`force = true`: every collection point collects) the collection always
+happens: immediately after `run_gc`, allocated = live, in every reachable state. -/
+theorem forced_gc_no_floating_garbage_machine {ext : ExtOps} (el : ExtLaws ext) (eg : ExtGood ext)
+    {s0 : St CHeap} (g0 : GoodI s0) (sb : SizeBounded (machine ext true) s0)
+    (sdl : StackDiscAlong (machine ext true) s0) (ecp : ExtCodePlain ext) (cp0 : CodePlain s0.heap)
+    {s : St CHeap} (hr : Reaches (machine ext true) s0 s) (x : Nat) :
+    ((toHeap (cgc true s).heap).NonFree x ↔ Live (toHeap s.heap) (rootsOf s) x) ∧
+    ((toHeap (cgc true s).heap).NonFree x ↔ Live (toHeap (cgc true s).heap) (rootsOf (cgc true s)) x) := by
+  have g := goodI_reaches true el eg g0 sb sdl s hr
+  obtain ⟨h', hrun⟩ := forced_gc_collects _ _ g.hg.wf g.roots
+  exact no_floating_garbage_machine true el eg g0 sb sdl ecp cp0 hr hrun x
+
+/-! ### non-vacuity (the program `HALT` of Lemmas/GoodDemo.lean, the parameter set `failingExt` of C13) -/
+
+open Marwood.Lemmas.Good.Demo in
+theorem sHalt_codePlain (o : Nat) : CodePlain (sHalt o).heap := by
+  intro i l hc
+  rcases hHalt_cell hc with ⟨_, h⟩ | h
+  · cases h; decide
+  · cases h
+
+open Marwood.Proofs.C13 in
+/-- `ExtCodePlain` is satisfiable (the parameter set whose builtins, compiler and VPUSH always fail) -/
+theorem failingExt_codePlain : ExtCodePlain failingExt :=
+  ⟨fun _ h => (by cases h), fun _ h => (by cases h), fun _ h => (by cases h)⟩
+
+open Marwood.Lemmas.Good.Demo Marwood.Proofs.C13 in
+example : GoodI (sHalt 0) ∧ SizeBounded (machine failingExt false) (sHalt 0) ∧
+    StackDiscAlong (machine failingExt false) (sHalt 0) ∧ CodePlain (sHalt 0).heap ∧
+    ExtLaws failingExt ∧ ExtGood failingExt ∧ ExtCodePlain failingExt :=
+  ⟨sHalt_goodI 0, sHalt_sizeBounded _, sHalt_discAlong _, sHalt_codePlain 0, failingExt_laws, failingExt_good,
+   failingExt_codePlain⟩
+
+end machine
 
 end Marwood.Proofs.C12
